@@ -23,6 +23,7 @@ func init() {
 func runC36(c *core.Ctx) {
 	checkRelayerListLoops(c)
 	accessorPairs(c, "C36.accessor-keys", 4, pkRM)
+	checkVoteTagsDistinct(c, "C36.ledger-tag")
 	ht := c.Fn(pkTxPool, "TxActor.handleTransaction")
 	ivs := eng.Obj(c, pkTxPool, "TxActor.isValidSender")
 	atw := eng.Obj(c, pkTxPool, "TXPoolServer.assignTxToWorker")
